@@ -46,7 +46,8 @@ def required_cells(tier):
             "reinclude:plain", "forced-include", "forced-include-macro-tested", "same-name-from-two-dirs",
             "class:E", "class:R", "resolved-set-compared", "table-compared", "header-dir-outside-root",
             "outside-header-read", "include-depth>=40", "include-depth>=70", "headers-differing-in-case",
-            "guard-undefined-then-reincluded", "directory-named-like-header-on-search-path"]
+            "guard-undefined-then-reincluded", "directory-named-like-header-on-search-path", "include-spelled-with-dotdot",
+            "dotdot-include-resolved-through-search-directory"]
 
 
 def enum_cases():
@@ -219,6 +220,12 @@ def check_case(ctx, case, base, cls, extra_cells=()):
         cells.add("headers-differing-in-case")
     if any(r.endswith("/tab.h") for r in case["files"]):
         cells.add("guard-undefined-then-reincluded")
+    if ev is not None:
+        for e in ev.events:
+            if e[0] == "inc" and e[2].startswith("../") and e[5]:
+                cells.add("include-spelled-with-dotdot")
+                if os.path.normpath(os.path.join(e[3], e[2])) != os.path.normpath(e[5]):
+                    cells.add("dotdot-include-resolved-through-search-directory")
     for dd in case.get("dirs", []):
         # the decoy matters when some translation unit searches its directory before the one that holds the file
         if any(os.path.dirname(dd) in [x[1] for x in tu["search"]] or os.path.dirname(dd) == os.path.dirname(tu["file"]) for tu in case["tus"]):
@@ -310,7 +317,7 @@ def run_shard(ctx):
         # 40%: one header directory lies outside the analysis root (its headers are read for their macros);
         # one case in 16: an include chain 20..100 levels deep (gcc allows 200; the code's recursion meets the interpreter's limit near 120)
         case = forest.gen(rng, outside=rng.random() < 0.4, deep=[20, 40, 70, 100][(i // 16) % 4] if i % 16 == 5 else 0,
-                          casepair=(i % 8 == 3), reguard=(i % 8 == 6), dirdecoy=(i % 4 == 1))
+                          casepair=(i % 8 == 3), reguard=(i % 8 == 6), dirdecoy=(i % 4 == 1), updir=(i % 4 == 2))
         if ctx.mine(i):
             check_case(ctx, case, base, "R")
     shutil.rmtree(base, ignore_errors=True)
